@@ -29,8 +29,9 @@ pub struct CaseReport {
 
 impl CaseReport {
     pub fn viol(&mut self, props: &[&'static str], rule: &'static str, msg: String) {
-        // Keep only the first few; after the first one the model may be out of sync
-        if self.violations.len() < 6 {
+        // Keep only the first few (at most 2 per rule, so that a repeating rule cannot crowd out
+        // a different one); after the first one the model may be out of sync
+        if self.violations.len() < 12 && self.violations.iter().filter(|v| v.rule == rule).count() < 2 {
             self.violations.push(Violation {
                 props: props.to_vec(),
                 rule,
